@@ -102,7 +102,15 @@ fn observe(rep: &Report, local: &mut BTreeMap<String, u64>, hs: &mut Vec<u64>, s
     if want != Verdict::DontCare {
         hs.push(hash_bytes(s.as_bytes()));
     }
-    match guard(|| judge_text(s)) {
+    // every text is offered twice in a row: the verdict on a text does not depend on what was offered before
+    let first = guard(|| judge_text(s));
+    let second = guard(|| judge_text(s));
+    if let (Ok(a), Ok(b)) = (&first, &second) {
+        if a != b {
+            rep.violation("verdict-depends-on-history", format!("the same text {s:?} judged twice in a row gives {a:?} and then {b:?}"), json!({"text": s}), s.len() as u64);
+        }
+    }
+    match second {
         Ok(None) => {}
         Ok(Some((key, what))) => rep.violation(key, what, json!({"text": s}), s.len() as u64),
         Err(p) => rep.violation(format!("panic:{}", p.site()), format!("panic on {s:?}: {}", p.message), json!({"text": s}), s.len() as u64),
@@ -232,6 +240,12 @@ fn run(ctx: &Ctx, rep: &Report) {
             let list: Vec<&str> = all.iter().cycle().take(n).copied().collect();
             texts.push(format!("{}=e", list.join(",")));
             texts.push(format!("{},cap_bogus=e", list.join(",")));
+        }
+        // numbers in place of names (libcap prints unknown capabilities as numbers; the property says names)
+        for n in ["0", "7", "21", "40", "41", "063", "0x15", "1e1"] {
+            texts.push(format!("{n}=e"));
+            texts.push(format!("cap_chown,{n}+p"));
+            texts.push(format!("=e {n}+i"));
         }
         rep.count("name_table_texts", texts.len() as u64);
         rep.eval(texts.len() as u64);
